@@ -79,6 +79,8 @@ LEVEL_TEXT = ('Every listed strings/regex function is checked against a '
 LEVEL_NOTE = ('Trusted: the VC generator itself, z3/cvc5, CPython str/re '
               'semantics as encoded (find/rfind/slices) or left '
               'uninterpreted (upper/lower/strip/split/replace/join, regex '
-              'engine). Not covered: replace_with_dict iteration order, '
-              'regex search/searchAll/replaceBy selector plumbing beyond '
-              '_publish_match, join/hex.')
+              'engine). search / searchAll / replaceBy plumbing (a child '
+              'context per match, the match published where the lambda '
+              'sees it) is under contract; the regex family end-to-end '
+              '(match records of numbered and named groups) is a BOUNDED '
+              'comparison with a model over `re`. Not covered: join.')
